@@ -43,6 +43,7 @@ const (
 	FamBlocks
 	FamWide
 	FamManyFields // 130..300 field names: two-byte field ids
+	FamBig        // a few documents with large incompressible stored values: data section > 1 MiB
 	FamHuge       // > 65535 documents: document numbers span several roaring containers
 	FamMid        // 1..28 documents focused on one posting list (multi-chunk under fixed sizes), plus unique terms
 )
@@ -211,6 +212,9 @@ func GenLeaf(t *rapid.T, ctx *Ctx, sc *Scenario, cfg CaseCfg, label string) (*Se
 			}
 		}
 		b, desc = p.Batch(sc), p.String()
+	case FamBig:
+		b = GenBatchBig(t, sc)
+		desc = fmt.Sprintf("big{%d docs, %d stored bytes each}", len(b), len(b[0].Fields[len(b[0].Fields)-1].Value))
 	case FamManyFields:
 		b = GenBatchManyFields(t, sc)
 		desc = b[1:].String() + fmt.Sprintf(" (+doc0 defining %d fields)", len(b[0].Fields))
@@ -408,9 +412,14 @@ func GenMerge(t *rapid.T, ctx *Ctx, sc *Scenario, cfg CaseCfg, depth int, label 
 	drops := make([]*roaring.Bitmap, k)
 	for i := range ins {
 		var err error
-		ins[i], err = GenCase(t, ctx, sc, cfg, depth-1, fmt.Sprintf("%s.%d", label, i))
-		if err != nil {
-			return nil, err
+		if i > 0 && cfg.Family != FamHuge && rapid.IntRange(0, 7).Draw(t, fmt.Sprintf("%s.%d:sameAgain", label, i)) == 0 {
+			// the very same segment object a second time in one input list (with its own deletions)
+			ins[i] = ins[rapid.IntRange(0, i-1).Draw(t, fmt.Sprintf("%s.%d:sameAs", label, i))]
+		} else {
+			ins[i], err = GenCase(t, ctx, sc, cfg, depth-1, fmt.Sprintf("%s.%d", label, i))
+			if err != nil {
+				return nil, err
+			}
 		}
 		drops[i] = GenDrops(t, ins[i].Exp.N, fmt.Sprintf("%s.%d", label, i))
 	}
